@@ -76,10 +76,19 @@ def ensureAll (new : Build) (t : Tree) : Except Err Tree := do
   let t ← new.dirs.foldlM ensureDir t
   new.symlinks.foldlM (fun t (p, d) => ensureSymlink t p d) t
 
-/-- `copy(old, new, mkdirBehavior)` -/
+/-- `copy(old, new, mkdirBehavior)`.  Since the repair of finding F26 a destination that is not a regular file
+    (a symlink, a directory) is removed first — `Lstat`, `Remove`, a missing one is fine, a non-empty directory
+    fails — instead of being written through or into (bowl_overlay.go:649-657). -/
 def copyFile (t : Tree) (o n : Path) (mkdir : Bool) : Except Err Tree := do
   let t ← if mkdir then mkdirs t n.dropLast else .ok t
   let data ← readFile t o
+  let t ← match lstat t n with
+    | .ok (.file _) => .ok t
+    | .ok _ =>
+      match remove t n with
+      | .ok t' => .ok t'
+      | .error e => if e == .enoent then .ok t else .error e
+    | .error _ => .ok t
   writeFile t n data
 
 /-- `move(old, new)`: remove the destination (a missing one is fine), mkdir the parent, rename; fall back to
@@ -203,15 +212,20 @@ def applyOverlays (new : Build) (w : Work) (t : Tree) : Except Err Tree :=
       let _ ← readFile t p
       writeFile t p data) t
 
-/-- `deleteGhosts`: old entries absent from the new build, longest path (as a string) first. -/
+/-- `deleteGhosts`: old entries absent from the new build, longest path (as a string) first.  Since the repair of
+    finding F25 a ghost below a path that is a file or a symlink of the new build is skipped (`isBelowAny(leaves,
+    ghost.Path)`): it went away when that entry was put in place, and looking it up would go through the new
+    symlink. -/
 def deleteGhosts (old new : Build) (t : Tree) : Except Err Tree :=
   let newPaths := new.files.map (·.1) ++ new.symlinks.map (·.1) ++ new.dirs
+  let leaves := new.files.map (·.1) ++ new.symlinks.map (·.1)
   let ghosts : List (Path × Bool) :=
     (old.files.filterMap fun (p, _) => if newPaths.contains p then none else some (p, false)) ++
     (old.symlinks.filterMap fun (p, _) => if newPaths.contains p then none else some (p, false)) ++
     (old.dirs.filterMap fun p => if newPaths.contains p then none else some (p, true))
   let sorted := ghosts.mergeSort (fun a b => (String.intercalate "/" a.1).length ≥ (String.intercalate "/" b.1).length)
   sorted.foldlM (fun t (p, isDir) =>
+    if leaves.any (fun l => isPrefix l p) then .ok t else
     match lstat t p with
     | .error _ => .ok t
     | .ok _ =>
